@@ -66,6 +66,10 @@ def main():
             for j in range(len(agg[m])):
                 om[(m, j)] = 0.01 + 0.004 * (3 * m + j)
                 hr[(m, j)] = 0.1 + 0.23 * ((2 * m + j) % 4)
+                if row["inst"] == 4:
+                    # two molecules with nearly (not exactly) equal
+                    # Huang-Rhys factors
+                    hr[(m, j)] = 0.0500 + 0.0002 * m
                 if max(agg[m][j]) > 8:
                     # many declared levels: overlaps between highly excited
                     # levels matter only for sizeable displacements
